@@ -742,45 +742,82 @@ func ruleEQ2(c *Ctx) []Obligation {
 			}
 			return true
 		})
-		lastFalse := false
-		if len(k.fd.Body.List) > 0 {
-			if r, ok := k.fd.Body.List[len(k.fd.Body.List)-1].(*ast.ReturnStmt); ok && len(r.Results) == 1 && exprString(r.Results[0]) == "false" {
-				lastFalse = true
+		// every return is false, or can only be reached / be true when the assertion to the own
+		// kind succeeded: inside `if ok {…}`, after `if !ok { return false }`, or `return ok && …`
+		lastFalse := asserted
+		okObjs := map[types.Object]bool{}
+		ast.Inspect(k.fd.Body, func(n ast.Node) bool {
+			as, isAs := n.(*ast.AssignStmt)
+			if !isAs || len(as.Lhs) != 2 || len(as.Rhs) != 1 {
+				return true
 			}
+			ta, isTA := unparen(as.Rhs[0]).(*ast.TypeAssertExpr)
+			if id, isID := as.Lhs[1].(*ast.Ident); isID && isTA && ta.Type != nil && namedOf(info.TypeOf(ta.Type)) == k.n {
+				okObjs[info.ObjectOf(id)] = true
+			}
+			return true
+		})
+		isOK := func(e ast.Expr) bool {
+			id, isID := unparen(e).(*ast.Ident)
+			return isID && okObjs[info.ObjectOf(id)]
 		}
-		// guard-clause form: v, ok := u.(*K); if !ok { return false }
-		if asserted && !lastFalse {
-			ast.Inspect(k.fd.Body, func(n ast.Node) bool {
-				is, ok := n.(*ast.IfStmt)
-				if !ok || is.Else != nil || len(is.Body.List) != 1 {
+		epm := buildParents(k.fd.Body)
+		ast.Inspect(k.fd.Body, func(n ast.Node) bool {
+			r, isRet := n.(*ast.ReturnStmt)
+			if !isRet || len(r.Results) != 1 {
+				return true
+			}
+			val := unparen(r.Results[0])
+			if exprString(val) == "false" || isOK(val) {
+				return true
+			}
+			// ok && …
+			left := val
+			for {
+				be, isBE := left.(*ast.BinaryExpr)
+				if !isBE || be.Op != token.LAND {
+					break
+				}
+				left = unparen(be.X)
+			}
+			if left != val && isOK(left) {
+				return true
+			}
+			// inside `if ok { … }`
+			var child ast.Node = r
+			for p := epm[r]; p != nil; child, p = p, epm[p] {
+				if is, isIf := p.(*ast.IfStmt); isIf && child == ast.Node(is.Body) && isOK(is.Cond) {
 					return true
 				}
-				ue, ok := unparen(is.Cond).(*ast.UnaryExpr)
-				if !ok || ue.Op != token.NOT {
-					return true
+			}
+			// after a guard `if !ok { return false }` in an enclosing statement list
+			child = r
+			for p := epm[r]; p != nil; child, p = p, epm[p] {
+				var list []ast.Stmt
+				switch pp := p.(type) {
+				case *ast.BlockStmt:
+					list = pp.List
+				case *ast.CaseClause:
+					list = pp.Body
 				}
-				okID, isID := unparen(ue.X).(*ast.Ident)
-				r, isRet := is.Body.List[0].(*ast.ReturnStmt)
-				if !isID || !isRet || len(r.Results) != 1 || exprString(r.Results[0]) != "false" {
-					return true
-				}
-				// ok is the second result of an assertion to this kind
-				okObj := info.ObjectOf(okID)
-				ast.Inspect(k.fd.Body, func(m ast.Node) bool {
-					as, isAs := m.(*ast.AssignStmt)
-					if !isAs || len(as.Lhs) != 2 || len(as.Rhs) != 1 {
+				for _, st := range list {
+					if ast.Node(st) == child {
+						break
+					}
+					is, isIf := st.(*ast.IfStmt)
+					if !isIf || is.Else != nil || len(is.Body.List) != 1 {
+						continue
+					}
+					ue, isUE := unparen(is.Cond).(*ast.UnaryExpr)
+					gr, isGR := is.Body.List[0].(*ast.ReturnStmt)
+					if isUE && ue.Op == token.NOT && isOK(ue.X) && isGR && len(gr.Results) == 1 && exprString(gr.Results[0]) == "false" {
 						return true
 					}
-					id2, isID2 := as.Lhs[1].(*ast.Ident)
-					ta, isTA := unparen(as.Rhs[0]).(*ast.TypeAssertExpr)
-					if isID2 && isTA && ta.Type != nil && info.ObjectOf(id2) == okObj && namedOf(info.TypeOf(ta.Type)) == k.n {
-						lastFalse = true
-					}
-					return true
-				})
-				return true
-			})
-		}
+				}
+			}
+			lastFalse = false
+			return true
+		})
 		switch {
 		case asserted && lastFalse:
 			o.Detail = "asserts the argument to its own kind, otherwise returns false"
